@@ -34,6 +34,9 @@ THEOREMS = [
     "try_iterate_ops_eq_scan",
     "iterate_ops_eq_scan",
     "scan_ops_spec",
+    # heap branch of mutate_subsection_ops under a Varlist cursor
+    "sub_ops_heap_refines",
+    "hint_fill_then_sub_ops",
     # non-vacuity anchors
     "hC_inv",
     "hC_io",
